@@ -10,7 +10,17 @@ import (
 
 // C20 a: the concurrent set: Put/Exists/Remove from two goroutines under symbolic interleavings
 func VerifC20Set() {
-	s := NewConcurrentSets()
+	var s interface {
+		Put(string)
+		Exists(string) bool
+		Remove(string)
+	}
+	if nd.Bool() {
+		s = NewConcurrentSets()
+	} else {
+		s = NewGenericConcurrentSets[string]()
+		nd.Cover("generic set")
+	}
 	keys := []string{"a", "b"}
 	type op struct {
 		kind int
